@@ -373,7 +373,7 @@ def gating(ctx, fd):
         ctx.unrec(R, 'site', ctx.where(fd), reason='dump no longer builds the annotator')
         return
     e = mk[0]
-    conds = [c for (c, p), k in zip(e.guards, e.gkinds) if k == 'if' and p and c[0] in ('or', 'v')]
+    conds = [t for t in ((c if p else T.not_(c)) for (c, p), k in zip(e.guards, e.gkinds) if k == 'if') if t[0] in ('or', 'v')]
     cond = conds[-1] if conds else None
     # flags that the annotator body tests
     fa = ctx.fa('cooler.cli.dump.make_annotator.<locals>.annotator')
